@@ -53,8 +53,25 @@ func pool() []*ssh.Certificate {
 		for i, k := range []string{"p256b", "ed25519b", "rsa1536", "p384a", "p521a", "ed25519c"} {
 			certPool = append(certPool, vh.MakeSSHCert(vh.SSHCertSpec{Key: k, KeyID: fmt.Sprintf("pool cert %d", i), ValidAfter: 0, ValidBefore: ssh.CertTimeInfinity, Serial: uint64(i), Principals: []string{"user_a"}}))
 		}
+		// big certificates (many long principals): authorized-key lines of about 64 KiB and 130 KiB
+		for i, n := range []int{236, 480} {
+			var prins []string
+			for j := 0; j < n; j++ {
+				prins = append(prins, fmt.Sprintf("principal-%04d-%s", j, strings.Repeat("x", 180)))
+			}
+			certPool = append(certPool, vh.MakeSSHCert(vh.SSHCertSpec{Key: "p256c", KeyID: fmt.Sprintf("big pool cert %d", i), ValidAfter: 0, ValidBefore: ssh.CertTimeInfinity, Serial: uint64(100 + i), Principals: prins}))
+		}
 	})
 	return certPool
+}
+
+// longComment expands the marker "LONG<n>" into a comment of n bytes (cases stay small).
+func longComment(s string) string {
+	var n int
+	if _, err := fmt.Sscanf(s, "LONG%d", &n); err == nil && n > 0 {
+		return strings.Repeat("c", n)
+	}
+	return s
 }
 
 func keyText(e Endpoint) string {
@@ -62,7 +79,7 @@ func keyText(e Endpoint) string {
 	for i, ci := range e.Certs {
 		line := strings.TrimSuffix(string(ssh.MarshalAuthorizedKey(pool()[ci%len(pool())])), "\n")
 		if i < len(e.Comments) && e.Comments[i] != "" {
-			line += " " + e.Comments[i]
+			line += " " + longComment(e.Comments[i])
 		}
 		b.WriteString(line + "\n")
 	}
@@ -80,8 +97,12 @@ func genEndpoint(t *rapid.T, label string) Endpoint {
 	case "sign":
 		n := rapid.IntRange(1, 3).Draw(t, label+"N")
 		for i := 0; i < n; i++ {
-			e.Certs = append(e.Certs, rapid.IntRange(0, 5).Draw(t, fmt.Sprintf("%sC%d", label, i)))
-			e.Comments = append(e.Comments, rapid.SampledFrom([]string{"", "TouchlessSSH", "user_a@host", "two words", "é 日本", "a  b", "-", "ssh-rsa"}).Draw(t, fmt.Sprintf("%sM%d", label, i)))
+			ci := rapid.IntRange(0, 5).Draw(t, fmt.Sprintf("%sC%d", label, i))
+			if rapid.IntRange(0, 31).Draw(t, fmt.Sprintf("%sBig%d", label, i)) == 17 {
+				ci = 6 + rapid.IntRange(0, 1).Draw(t, fmt.Sprintf("%sBigC%d", label, i))
+			}
+			e.Certs = append(e.Certs, ci)
+			e.Comments = append(e.Comments, rapid.SampledFrom([]string{"", "TouchlessSSH", "user_a@host", "two words", "é 日本", "a  b", "-", "ssh-rsa", "LONG4096", "LONG70000"}).Draw(t, fmt.Sprintf("%sM%d", label, i)))
 		}
 	}
 	return e
@@ -311,8 +332,8 @@ func oneRound(c Case, cur []Endpoint, round int, g *vh.CAGroup, signer *crypki.S
 		if !bytes.Equal(certs[i].Marshal(), pool()[ci%len(pool())].Marshal()) {
 			return vh.Errf("certificate %d is not the one endpoint %d sent at that position", i, firstOK)
 		}
-		if comments[i] != want.Comments[i] {
-			return vh.Errf("comment %d is %q, endpoint %d sent %q", i, comments[i], firstOK, want.Comments[i])
+		if comments[i] != longComment(want.Comments[i]) {
+			return vh.Errf("comment %d is %.80q (%d bytes), endpoint %d sent %s", i, comments[i], len(comments[i]), firstOK, want.Comments[i])
 		}
 	}
 	return nil
@@ -326,7 +347,7 @@ func behaviours(c Case) []string {
 	return b
 }
 
-const rule = "endpoint lists of length 0..4 over 127.0.0.2..5 sharing one port, served by real gRPC-over-TLS Signing servers; per endpoint: signs 1..3 certificates with comment shapes (none, one word, several words, non-ASCII, a key-type look-alike), RPC error with any status code 1..16, empty key text, unparsable key text, no listener, hangs past the per-try deadline (rare); real crypki.NewSigner with real TLS material, retries = 1; 1..3 Sign calls on the same Signer, with endpoints recovering or starting to fail after the first call, at RPC level (status code) and at connection level (an address without listener starts listening; a listening one goes away); a tenth of the cases enter Sign with a cancelled or expired context (deadline failure of every endpoint); request fields generated (principals, KeyID, validity, identifier, extensions, critical options). Oracle: contacted = the prefix up to and including the first signing endpoint, in order, each once, each receiving a request proto.Equal to the input; result = that endpoint's certificates and comments, same length, CA order; no signing endpoint or an empty list => non-nil error, never (nil, nil, nil). Non-trivial: a failing endpoint before a signing one, or all failing."
+const rule = "endpoint lists of length 0..4 over 127.0.0.2..5 sharing one port, served by real gRPC-over-TLS Signing servers; per endpoint: signs 1..3 certificates (small ones, rarely one of 64 KiB / 130 KiB) with comment shapes (none, one word, several words, non-ASCII, a key-type look-alike, 4 KB, 70 KB), RPC error with any status code 1..16, empty key text, unparsable key text, no listener, hangs past the per-try deadline (rare); real crypki.NewSigner with real TLS material, retries = 1; 1..3 Sign calls on the same Signer, with endpoints recovering or starting to fail after the first call, at RPC level (status code) and at connection level (an address without listener starts listening; a listening one goes away); a tenth of the cases enter Sign with a cancelled or expired context (deadline failure of every endpoint); request fields generated (principals, KeyID, validity, identifier, extensions, critical options). Oracle: contacted = the prefix up to and including the first signing endpoint, in order, each once, each receiving a request proto.Equal to the input; result = that endpoint's certificates and comments, same length, CA order; no signing endpoint or an empty list => non-nil error, never (nil, nil, nil). Non-trivial: a failing endpoint before a signing one, or all failing."
 
 func TestC17Failover(t *testing.T) {
 	vh.Run(t, vh.Spec[Case]{Property: "C17", Name: "TestC17Failover", Rule: rule, Gen: gen, Exec: exec})
@@ -336,6 +357,11 @@ func TestC17Failover(t *testing.T) {
 func TestC17Vectors(t *testing.T) {
 	var cases []Case
 	kinds := []Endpoint{{Behaviour: "sign", Certs: []int{0, 1}, Comments: []string{"c0", ""}}, {Behaviour: "rpcerr", Code: 14}, {Behaviour: "unparsable"}, {Behaviour: "nolistener"}}
+	// replies with very long lines (a big certificate first / in the middle, a 70 KB comment)
+	for _, big := range []Endpoint{{Behaviour: "sign", Certs: []int{7, 0}, Comments: []string{"", "after-big"}}, {Behaviour: "sign", Certs: []int{0, 6, 1}, Comments: []string{"c0", "LONG70000", "c2"}}} {
+		cases = append(cases, Case{Endpoints: []Endpoint{big, kinds[0]}, Principals: []string{"user_a"}, KeyID: "k", Validity: 3600, Identifier: "ssh-user-key"},
+			Case{Endpoints: []Endpoint{kinds[1], big}, Principals: []string{"user_a"}, KeyID: "k", Validity: 3600, Identifier: "ssh-user-key"})
+	}
 	var rec func(prefix []Endpoint, n int)
 	rec = func(prefix []Endpoint, n int) {
 		if len(prefix) == n {
@@ -350,7 +376,7 @@ func TestC17Vectors(t *testing.T) {
 		rec(nil, n)
 	}
 	vh.Enumerate(t, vh.Spec[Case]{Property: "C17", Name: "TestC17Vectors", Exhaustive: true,
-		Rule: "every vector over {signs, RPC error (Unavailable), unparsable key text, no listener} for endpoint lists of length 0..3 (1 + 4 + 16 + 64 = 85 lists); same oracle",
+		Rule: "every vector over {signs, RPC error (Unavailable), unparsable key text, no listener} for endpoint lists of length 0..3 (1 + 4 + 16 + 64 = 85 lists), plus 4 lists whose signing endpoint answers with very long lines (a 130 KiB certificate first, a 64 KiB certificate with a 70 KB comment in the middle); same oracle",
 		Exec: exec}, cases)
 }
 
